@@ -20,7 +20,7 @@ from sqllineage.runner import LineageRunner  # noqa: E402
 #      desc` inside a window specification): witness family = generated window2 items in multi-relation scopes
 KNOWN = {
     "D26": lambda cid: cid.endswith("/list/non-validating") or cid == "union/explicit/non-validating",
-    "D33": lambda cid: "/window2/" in cid and cid.endswith("/non-validating") and not cid.endswith("/list/non-validating") and cid.split("/")[0] in ("join2", "join2_noalias", "join_derived", "join3", "alias_case", "cte_join_table", "cte_named_like_table", "join2_fullqual"),
+    "D33": lambda cid: "/window2/" in cid and cid.endswith("/non-validating") and not cid.endswith("/list/non-validating") and cid.split("/")[0] in ("join2", "join2_noalias", "join_derived", "join3", "alias_case", "cte_join_table", "cte_named_like_table", "join2_fullqual", "alias_like_other_table"),
 }
 
 
@@ -39,6 +39,8 @@ def cases():
     for name, st in gen_stmt.statements():
         out.append((name, st.sql(), st.expected()))
     for name, (sql, exp) in gen_stmt.unions():
+        out.append((name, sql, exp))
+    for name, (sql, exp) in gen_stmt.wildcards():
         out.append((name, sql, exp))
     return out
 
@@ -69,7 +71,7 @@ def main():
                 continue
             nontrivial.add(json.dumps(sorted(got)))
             if got != exp:
-                clause = "unqualified_reference_resolves_to_the_only_relation_or_is_reported_unresolved" if name.endswith("unqualified") else ("set_operation_branches_line_up_position_by_position" if name.startswith("union") else "reported_pairs_equal_the_statement_dataflow")
+                clause = "unqualified_reference_resolves_to_the_only_relation_or_is_reported_unresolved" if name.endswith("unqualified") else ("set_operation_branches_line_up_position_by_position" if name.startswith("union") else ("wildcard_yields_one_reference_per_relation_in_scope" if name.startswith("wildcard") else "reported_pairs_equal_the_statement_dataflow"))
                 fails.append({"id": cid, "clause": clause, "sql": sql, "dialect": dialect, "got": sorted(got), "want": sorted(exp)})
             elif name.endswith("unqualified"):
                 # unresolved references carry every relation in scope as candidates
